@@ -155,8 +155,11 @@ async fn process_bufs(
 @        res is Ok ==> final(w).sink == old(w).sink.insert(compressor_client.key(), old(w).sink[compressor_client.key()] + flat(bufs@)), // [C08,C15]
 @        forall|k: (int, int)| k != compressor_client.key() ==> final(w).sink[k] == old(w).sink[k] && (final(w).sink.dom().contains(k) <==> old(w).sink.dom().contains(k)), // [C08]
 @        old(w).sink.dom().contains(compressor_client.key()) ==> final(w).sink.dom().contains(compressor_client.key()),
+@        // C20 (ghost bookkeeping): w.midline records whether any flush carried a block that does not end at a line boundary
+@        res is Ok ==> final(w).midline == (old(w).midline || !all_lines(bufs@)),
 {
 @    let ghost key = compressor_client.key();
+@    let ghost all_bufs = bufs@;
     if !bufs.is_empty() {
 @        let ghost b0 = bufs@;
         let bufs_arc = sync::Arc::new(bufs);
@@ -184,11 +187,12 @@ async fn process_bufs(
         compressor_client.end(Tracked(w)).await?;
     }
 
+@    proof { w.midline = old(w).midline || !all_lines(all_bufs); }
     Ok(())
 }
 //!end
 
-//!fn src/app/log.rs process_reader rules=R1,R7,R10,R11,R17 props=C08
+//!fn src/app/log.rs process_reader rules=R1,R7,R10,R11,R17 props=C08,C20
 @#[verifier::exec_allows_no_decreases_clause]
 pub(crate) async fn process_reader<R>(
     reader__0: tokio::io::BufReader<R>,
@@ -207,6 +211,9 @@ where
 @        res is Ok ==> final(w).sink[compressor_client.key()] == old(w).sink[compressor_client.key()] + reader__0.rest, // [C08]
 @        // C08 isolation: nothing is ever handed to another task's encoder
 @        forall|k: (int, int)| k != compressor_client.key() ==> final(w).sink[k] == old(w).sink[k], // [C08]
+@        // C20: for newline-terminated output every flush - in particular every timer flush - hands the listener whole lines only, so
+@        // each block ends at a line boundary and the next header on the shared connection starts a line of its own
+@        (res is Ok && nl_terminated(reader__0.rest) && !old(w).midline) ==> !final(w).midline, // [C20]
 { let mut reader = reader__0; let mut log_stream_client = log_stream_client__0;
 @    let ghost key = compressor_client.key();
 @    let ghost stream = reader.rest;
@@ -216,6 +223,7 @@ where
     // is dropped but the bytes it already consumed have been appended here, so
     // the buffer must outlive the flush and be continued by the next read.
     let mut buf⟦: Vec<u8>⟧ = Vec::new();
+@    proof { lemma_buf_at_end_empty(buf@, reader.consumed); }
     loop
 @        invariant
 @            key == compressor_client.key(), w.sink.dom().contains(key),
@@ -223,9 +231,12 @@ where
 @            reader.consumed + reader.rest =~= stream,
 @            w.sink[key] + buf@ =~= s0 + reader.consumed,
 @            forall|k: (int, int)| k != key ==> w.sink[k] == old(w).sink[k],
+@            buf_at_end(buf@, reader.consumed),
+@            (nl_terminated(stream) && !old(w).midline) ==> !w.midline,
     {
         let mut bufs⟦: Vec<Vec<u8>>⟧ = Vec::new();
 @        assert(flat(bufs@) =~= Seq::<u8>::empty());
+@        proof { lemma_all_lines_empty(bufs@); }
         loop
 @            invariant_except_break
 @                w.sink[key] + flat(bufs@) + buf@ =~= s0 + reader.consumed,
@@ -233,6 +244,9 @@ where
 @                key == compressor_client.key(), w.sink.dom().contains(key), s0 == old(w).sink[key], stream == reader__0.rest,
 @                reader.consumed + reader.rest =~= stream,
 @                forall|k: (int, int)| k != key ==> w.sink[k] == old(w).sink[k],
+@                buf_at_end(buf@, reader.consumed),
+@                (nl_terminated(stream) && !old(w).midline) ==> !w.midline,
+@                nl_terminated(stream) ==> all_lines(bufs@), // [C20] buffers waiting for a flush are whole lines
 @            ensures
 @                w.sink[key] + buf@ =~= s0 + reader.consumed,
         {
@@ -243,6 +257,7 @@ where
 0 => { let _ = token.cancelled().await; reader.read_until_dropped(b'\n', &mut buf);
 @                    assert(k0 + flat(bufs@) + buf@ =~= s0 + reader.consumed) by { assert(k0 + flat(bufs@) + (b0 + read_chunk(b0, buf@)) =~= (k0 + flat(bufs@) + b0) + read_chunk(b0, buf@)); }
 @                    assert(reader.consumed + reader.rest =~= stream) by { assert((c0 + read_chunk(b0, buf@)) + reader.rest =~= c0 + (read_chunk(b0, buf@) + reader.rest)); }
+@                    proof { lemma_after_read(b0, buf@, c0, reader.consumed); }
                     if !buf.is_empty() {
 @                        let ghost ob = bufs@;
                         bufs.push(mem::take(&mut buf));
@@ -253,14 +268,16 @@ where
 1 => { let res = reader.read_until(b'\n', &mut buf).await;
 @                    assert(k0 + flat(bufs@) + buf@ =~= s0 + reader.consumed) by { assert(k0 + flat(bufs@) + (b0 + read_chunk(b0, buf@)) =~= (k0 + flat(bufs@) + b0) + read_chunk(b0, buf@)); }
 @                    assert(reader.consumed + reader.rest =~= stream) by { assert((c0 + read_chunk(b0, buf@)) + reader.rest =~= c0 + (read_chunk(b0, buf@) + reader.rest)); }
+@                    proof { lemma_after_read(b0, buf@, c0, reader.consumed); }
                     match res {
                         Ok(0) => {
 @                            assert(reader.rest.len() == 0);
 @                            assert(reader.consumed =~= stream);
                             if !buf.is_empty() {
 @                                let ghost ob = bufs@;
+@                                proof { if nl_terminated(stream) { lemma_line_at_eof(buf@, reader.consumed, reader.rest, stream); } }
                                 bufs.push(mem::take(&mut buf));
-@                                proof { lemma_flat_push(ob, bufs@[bufs@.len() - 1]); assert(bufs@ =~= ob.push(bufs@[bufs@.len() - 1])); }
+@                                proof { lemma_flat_push(ob, bufs@[bufs@.len() - 1]); assert(bufs@ =~= ob.push(bufs@[bufs@.len() - 1])); if nl_terminated(stream) { lemma_all_lines_push(ob, bufs@[bufs@.len() - 1]); } }
                             }
 @                            assert(buf@ =~= Seq::<u8>::empty());
 @                            assert(w.sink[key] + flat(bufs@) =~= s0 + stream);
@@ -270,8 +287,11 @@ where
                         },
                         Ok(_n) => {
 @                            let ghost ob = bufs@;
+@                            let ghost line = buf@;
+@                            // a completed read ends with the newline - or with the end of the stream, which is a newline for newline-terminated output
+@                            assert(nl_terminated(stream) ==> line.len() > 0 && line.last() == 10u8) by { if nl_terminated(stream) && reader.rest.len() == 0 { lemma_line_at_eof(line, reader.consumed, reader.rest, stream); } }
                             bufs.push(mem::take(&mut buf));
-@                            proof { lemma_flat_push(ob, bufs@[bufs@.len() - 1]); assert(bufs@ =~= ob.push(bufs@[bufs@.len() - 1])); }
+@                            proof { lemma_flat_push(ob, bufs@[bufs@.len() - 1]); assert(bufs@ =~= ob.push(bufs@[bufs@.len() - 1])); if nl_terminated(stream) { lemma_all_lines_push(ob, bufs@[bufs@.len() - 1]); } lemma_buf_at_end_empty(buf@, reader.consumed); }
                         }
                         Err(e) => {
                             if !buf.is_empty() {
@@ -286,6 +306,7 @@ where
 _ => { let _ = interval.tick().await; reader.read_until_dropped(b'\n', &mut buf);
 @                    assert(k0 + flat(bufs@) + buf@ =~= s0 + reader.consumed) by { assert(k0 + flat(bufs@) + (b0 + read_chunk(b0, buf@)) =~= (k0 + flat(bufs@) + b0) + read_chunk(b0, buf@)); }
 @                    assert(reader.consumed + reader.rest =~= stream) by { assert((c0 + read_chunk(b0, buf@)) + reader.rest =~= c0 + (read_chunk(b0, buf@) + reader.rest)); }
+@                    proof { lemma_after_read(b0, buf@, c0, reader.consumed); }
                     process_bufs(&header, bufs, &compressor_client, &mut log_stream_client, false, Tracked(w)).await?;
                     break; }
 }
